@@ -521,6 +521,8 @@ MODES = {
 SLICES = {
     "retarget": ("free", dict(LOST="FALSE", TOPDOWN="FALSE", SKIP='{"m2", "f2", "x1"}', SEEDS="{3}"), 3, 4),
     "merge": ("free", dict(LOST="FALSE", TOPDOWN="FALSE", SKIP='{"k1", "k2", "f1", "a1", "a3"}', SEEDS="{1}"), 6, 7),
+    # lazily resolved chains: n.a -> m.a -> m.K resolved outer-first (nested resolve_target), clean domain
+    "chain": ("clean", dict(LOST="FALSE", TOPDOWN="TRUE", SKIP='{"m2", "k2", "f1", "f2", "x1", "a3"}', SEEDS="{2}"), 4, 5),
 }
 EXPECT = {"clean": [], "free": ["I6_BackrefListed"], "lost": ["I2_NoLostWrite"]}
 
@@ -612,6 +614,8 @@ def main(tier: str, replay: str | None = None):
         run.add_tlc(res)
         smp = samplers["rare", name]
         run.extra.setdefault("rare_transitions", {})[name] = smp.distinct
+        if name == "chain" and not any(t["op"]["name"] == "resolve" and t["post"]["outcome"] == "ok" and sum(1 for a in t["post"]["atarget"] if t["post"]["atarget"][a] != t["pre"]["atarget"][a]) == 2 for t in smp.keep):
+            die("C16: the chain slice produced no nested (outer-first) resolution of a two-link chain (vacuous)")
         drift += replay_transitions(run, griffe, smp.keep, mode, len(smp.keep) + 1, rnd)
     for mode in ("clean", "free"):
         res = jobs["sim", mode].result()
